@@ -407,7 +407,7 @@ func ssDialect(b *bytes.Buffer, name, file string, tp *tokPkg, tokVar string) er
 	if !hasDefault {
 		return broken("%s: operator switch has no default clause", file)
 	}
-	fmt.Fprintf(b, "\n/-- %s: first byte ↦ decision trie, in source order -/\ndef %sOps : List (Nat × Trie) := [\n", file, name)
+	fmt.Fprintf(b, "\n/-- %s Scan: first byte ↦ decision trie, in source order -/\ndef %sOps : List (Nat × Trie) := [\n", name, name)
 	for i, e := range ops {
 		if i > 0 {
 			b.WriteString(",\n")
